@@ -176,3 +176,23 @@ package compile
 
 // the decoded line table is read only after lntOnce.Do has run (C05: no unsynchronised read)
 //@ readafter [C05] Funcode.lnt : sync.Once.Do except Funcode.decodeLNT
+
+// ---- positions of fallible instructions (C16): an instruction that can fail at run time is
+// emitted only while a source position set by setPos is pending (emit consumes it), so the
+// innermost frame of an error always points at the failing operation. g_posfresh is 1 between
+// a setPos and the next emit.
+//@ specfn fallible(op int) bool = op == EQL || op == NEQ || op == GT || op == LT || op == LE || op == GE || op == PLUS || op == MINUS || op == STAR || op == SLASH || op == SLASHSLASH || op == PERCENT || op == AMP || op == PIPE || op == CIRCUMFLEX || op == LTLT || op == GTGT || op == IN || op == UPLUS || op == UMINUS || op == TILDE || op == INPLACE_ADD || op == INPLACE_PIPE || op == CALL || op == CALL_VAR || op == CALL_KW || op == CALL_VAR_KW || op == ITERPUSH || op == SETINDEX || op == INDEX || op == ATTR || op == SETFIELD || op == SETDICT || op == SETDICTUNIQ || op == SLICE || op == UNPACK || op == LOAD
+//@ func fcomp.setPos
+//@   prop C16
+//@   ghostmod g_posfresh
+//@   ensures ghost: g_posfresh == 1
+//@ func fcomp.emit
+//@   prop C16
+//@   requires position_pending: fallible(op) ==> g_posfresh == 1
+//@   ghostmod g_posfresh
+//@   ensures ghost: g_posfresh == 0
+//@ func fcomp.emit1
+//@   prop C16
+//@   requires position_pending: fallible(op) ==> g_posfresh == 1
+//@   ghostmod g_posfresh
+//@   ensures ghost: g_posfresh == 0
